@@ -931,6 +931,196 @@ theorem run_length_bounded (cs : List (Callee × Bool)) : ∀ (n : Nat) (g : G),
       exact ⟨by omega, .step hrun hs⟩
 
 
+/-! ## several event loops one after the other (`asyncio.run` again and again in one interpreter), any number of invocations in each -/
+
+/-- runs over any number of event loops: the interpreter starts with nothing; the machine steps; when every invocation made so
+    far has finished (the `asyncio.run` of that loop can return) a **new event loop** may be started with any further invocations.
+    `cs` collects the callee behaviours of all invocations made so far, in order. -/
+inductive MRun : List (Callee × Bool) → G → Prop where
+  | start : MRun [] (G.init [])
+  | step {cs : List (Callee × Bool)} {g g' : G} : MRun cs g → GStep prog g g' → MRun cs g'
+  | newLoop {cs : List (Callee × Bool)} {g : G} (cs' : List (Callee × Bool)) :
+      MRun cs g → (∀ l ∈ g.invs, l.st.final = true) → MRun (cs ++ cs') (G.newLoop g cs')
+
+theorem newLoop_get {g : G} {cs : List (Callee × Bool)} {i : Nat} {l : Loc} (h : (G.newLoop g cs).invs[i]? = some l) :
+    g.invs[i]? = some l ∨ (g.invs[i]? = none ∧ ∃ c big, l = Loc.fresh c big) := by
+  simp only [G.newLoop] at h
+  rw [List.getElem?_append] at h
+  split at h
+  · exact Or.inl h
+  · next hlt =>
+    right
+    refine ⟨by simpa using hlt, ?_⟩
+    have := List.mem_of_getElem? h
+    simp only [List.mem_map] at this
+    obtain ⟨c, _, rfl⟩ := this
+    exact ⟨c.1, c.2, rfl⟩
+
+/-- starting a new event loop after all invocations have finished keeps the invariant — and loses nothing: the old loop's selector
+    map was empty already (`all_released`) -/
+theorem wf_newLoop {g : G} (hwf : WF g) (hfin : ∀ l ∈ g.invs, l.st.final = true) (cs : List (Callee × Bool)) :
+    WF (G.newLoop g cs) := by
+  have hold : ∀ (i : Nat) (l : Loc), g.invs[i]? = some l → l.st.reader = false ∧ l.rx = none := by
+    intro i l hi
+    have hl := List.mem_of_getElem? hi
+    have hr := ((all_released hwf hfin).1 l hl)
+    have h1 := hr.1
+    simp only [St.released, Bool.and_eq_true, Bool.not_eq_true'] at h1
+    exact ⟨h1.1.1.2, hr.2.1⟩
+  refine ⟨?_, ?_, ?_, ?_, ?_, ?_⟩
+  · intro i l h
+    rcases newLoop_get h with h | ⟨_, c, big, rfl⟩
+    · exact hwf.reach i l h
+    · exact init_reach _ _
+  · intro i l h
+    rcases newLoop_get h with h | ⟨_, c, big, rfl⟩
+    · exact hwf.rxIff i l h
+    · rfl
+  · intro i l h
+    rcases newLoop_get h with h | ⟨_, c, big, rfl⟩
+    · exact hwf.txIff i l h
+    · rfl
+  · intro i j li lj fd hi hj hri hrj
+    rcases newLoop_get hi with hi | ⟨_, c, big, rfl⟩
+    · rw [(hold i li hi).2] at hri; cases hri
+    · simp [Loc.fresh] at hri
+  · intro e he; simp [G.newLoop] at he
+  · intro i l h hr
+    rcases newLoop_get h with h | ⟨_, c, big, rfl⟩
+    · rw [(hold i l h).1] at hr; cases hr
+    · simp [Loc.fresh, St.init] at hr
+
+theorem wf_mrun {cs : List (Callee × Bool)} {g : G} (h : MRun cs g) : WF g := by
+  induction h with
+  | start => exact wf_init []
+  | step _ hs ih => exact wf_step ih hs
+  | newLoop cs' _ hfin ih => exact wf_newLoop ih hfin cs'
+
+/-- a run inside one event loop is a run over event loops -/
+theorem grun_mrun {cs : List (Callee × Bool)} {g : G} (h : GRun prog (G.init cs) g) : MRun cs g := by
+  generalize hg0 : G.init cs = g0 at h
+  induction h with
+  | refl =>
+    subst hg0
+    have := MRun.newLoop cs MRun.start (by simp [G.init])
+    simpa [G.newLoop, G.init] using this
+  | step _ hs ih => exact .step ih hs
+
+/-- the invocations keep the callee they were started with, over all loops -/
+theorem mrun_callees {cs : List (Callee × Bool)} {g : G} (h : MRun cs g) :
+    g.invs.map (fun l => (l.callee, l.big)) = cs := by
+  induction h with
+  | start => simp [G.init]
+  | step hr hs ih =>
+    obtain ⟨i, l, l', hi, hset, hc, hb, _⟩ := gstep_local (wf_mrun hr) hs
+    rw [hset, ← ih]
+    apply List.ext_getElem?
+    intro j
+    simp only [List.getElem?_map]
+    rw [get_set l' hi j]
+    split
+    · next hij => subst hij; simp [hi, hc, hb]
+    · rfl
+  | newLoop cs' _ _ ih =>
+    simp only [G.newLoop, List.map_append, ih, List.map_map]
+    congr 1
+    simp [Function.comp_def, Loc.fresh]
+
+/-- **faithful result, each invocation its own — in every event loop**: for every number of event loops run one after the other
+    in the same interpreter, every number of concurrent invocations in each of them, every interleaving: an invocation that
+    has finished handed its caller an observation the specification allows for *its own* callee. -/
+theorem faithful_result_rounds (cs : List (Callee × Bool)) (g : G) (hrun : MRun cs g)
+    (i : Nat) (l : Loc) (hi : g.invs[i]? = some l) (o : Outcome) (ho : l.st.out = some o) :
+    (∃ c, cs[i]? = some c ∧ l.callee = c.1) ∧ observe l.callee o ∈ Spec.allowed l.callee := by
+  have hwf := wf_mrun hrun
+  constructor
+  · have h := mrun_callees hrun
+    have : (g.invs.map (fun l => (l.callee, l.big)))[i]? = some (l.callee, l.big) := by simp [hi]
+    rw [h] at this
+    exact ⟨_, this, rfl⟩
+  · have hf : l.st.final = true := by simp [St.final, ho]
+    have := (local_final (hwf.reach i l hi) hf).2
+    rw [ho] at this
+    exact outOk_allowed _ _ this
+
+/-- **always terminates, releases everything — in every event loop**: the three clauses of `terminates_and_releases` for runs
+    over any number of event loops (within a loop every step decreases the rank sum; a pending invocation always has an enabled
+    step of its own; when all have finished nothing is left). -/
+theorem terminates_and_releases_rounds (cs : List (Callee × Bool)) (g : G) (hrun : MRun cs g) :
+    (∀ g', GStep prog g g' → rankSum g'.invs < rankSum g.invs) ∧
+    (∀ (i : Nat) (l : Loc), g.invs[i]? = some l → l.st.final = false → ∃ g', StepOf i g g') ∧
+    ((∀ l ∈ g.invs, l.st.final = true) →
+      (∀ l ∈ g.invs, l.st.released = true ∧ l.rx = none ∧ l.tx = none) ∧ g.tbl = []) := by
+  have hwf := wf_mrun hrun
+  exact ⟨fun g' h => gstep_rank hwf h, fun i l hi hnf => progress_of hwf hi hnf, all_released hwf⟩
+
+/-- **a new event loop starts from the initial state**: when every invocation of the earlier loops has finished, what an
+    invocation of a new loop can find — the selector map and the fd numbers in use — is what the very first invocation of the
+    interpreter found: the old loop's map is empty (so the new, empty map loses no registration), no fd number is taken, and the
+    new loop's shared tables are those of `G.init`. -/
+theorem new_loop_starts_from_initial_state (cs : List (Callee × Bool)) (g : G) (hrun : MRun cs g)
+    (hfin : ∀ l ∈ g.invs, l.st.final = true) (cs' : List (Callee × Bool)) :
+    g.tbl = [] ∧ usedFds g.invs = [] ∧
+    (G.newLoop g cs').tbl = (G.init cs').tbl ∧ usedFds (G.newLoop g cs').invs = usedFds (G.init cs').invs ∧
+    (∀ l ∈ (G.newLoop g cs').invs.drop g.invs.length, l ∈ (G.init cs').invs) := by
+  have hrel := all_released (wf_mrun hrun) hfin
+  have hfresh : usedFds (cs'.map (fun c => Loc.fresh c.1 c.2)) = [] := by
+    simp only [usedFds, List.flatMap_eq_nil_iff, List.mem_map]
+    rintro l ⟨c, _, rfl⟩
+    rfl
+  have hold : usedFds g.invs = [] := by
+    simp only [usedFds, List.flatMap_eq_nil_iff]
+    intro l hl
+    have := hrel.1 l hl
+    simp [this.2.1, this.2.2]
+  refine ⟨hrel.2, hold, rfl, ?_, ?_⟩
+  · simp only [usedFds, G.newLoop, G.init, List.flatMap_append] at *
+    rw [hold, hfresh]; rfl
+  · intro l hl
+    simpa [G.newLoop, G.init] using hl
+
+/-- **invocations share no state beyond the event loop's reader table**: a step of the system rewrites the local state of ONE
+    invocation (and possibly the reader table); every other invocation — of this and of every earlier loop — is left exactly as
+    it was.  (What the step may do to the table is `reader_table_invariant` / `own_result`.) -/
+theorem step_touches_one_invocation (cs : List (Callee × Bool)) (g g' : G) (hrun : MRun cs g) (hs : GStep prog g g') :
+    ∃ i : Nat, g'.invs.length = g.invs.length ∧ ∀ j : Nat, j ≠ i → g'.invs[j]? = g.invs[j]? := by
+  obtain ⟨i, l, l', hi, hset, _, _, _⟩ := gstep_local (wf_mrun hrun) hs
+  refine ⟨i, by simp [hset], ?_⟩
+  intro j hj
+  rw [hset, get_set l' hi j]
+  simp [Ne.symm hj]
+
+/-- … and the module offers nothing else to share: no module-level name is bound by anything but imports, classes, functions and
+    the TypeVar (no semaphore, lock, pool, cache or counter created at import time), no function of the module enters a context
+    manager, takes a lock or mentions a synchronisation primitive, none keeps anything beyond its activation (`global`, stores
+    through non-locals, non-constant defaults, caching decorators).  Generated from the module's source on every run. -/
+theorem no_state_between_invocations :
+    PedVerif.Gen.SubprocModule.moduleState = [] ∧ PedVerif.Gen.SubprocModule.bodyGuards = [] ∧
+    PedVerif.Gen.SubprocModule.sharedStores = [] := by decide
+
+/-- non-vacuity: three event loops, in each more invocations than the first had, every kind of callee; scheduled to the end -/
+def roundsCs1 : List (Callee × Bool) := [(.ret 0, false), (.raiseExc 1, false)]
+def roundsCs2 : List (Callee × Bool) := [(.hardDeath .signal, false), (.ret 3, true), (.ret 4, false)]
+def roundsSc : List Sched := [⟨1, none⟩, ⟨1, none⟩, ⟨1, none⟩, ⟨2, none⟩, ⟨0, some 3⟩]
+def roundsG1 : G := schedule prog roundsSc 400 [1, 1, 1, 2, 0] (G.newLoop (G.init []) roundsCs1)
+def roundsG2 : G := schedule prog roundsSc 400 [1, 1, 1, 2, 0] (G.newLoop roundsG1 roundsCs2)
+
+theorem mrun_trans_grun {cs : List (Callee × Bool)} {g g' : G} (h : MRun cs g) (h2 : GRun prog g g') : MRun cs g' := by
+  induction h2 with
+  | refl => exact h
+  | step _ hs ih => exact .step ih hs
+
+example : roundsG1.invs.all (fun l => l.st.final) = true := by decide +kernel
+example : MRun (([] ++ roundsCs1) ++ roundsCs2) roundsG2 := by
+  have h1 : MRun ([] ++ roundsCs1) roundsG1 := mrun_trans_grun (.newLoop roundsCs1 .start (by simp [G.init])) (schedule_run _ _ _ _ _)
+  have hf : ∀ l ∈ roundsG1.invs, l.st.final = true := by
+    have : roundsG1.invs.all (fun l => l.st.final) = true := by decide +kernel
+    simpa [List.all_eq_true] using this
+  exact mrun_trans_grun (.newLoop roundsCs2 h1 hf) (schedule_run _ _ _ _ _)
+example : roundsG2.invs.map (fun l => l.st.out) =
+    [some .retOk, some .raisedCallee, some .raisedCPE, some .retOk, some .retOk] ∧ roundsG2.tbl = [] := by decide +kernel
+
+
 /-! ## negation witnesses: the protocol before the repair, and a protocol that forgets `remove_reader` -/
 
 /-- `calculate_in_subprocess` before commit 47f1196 (the translator's output for that source): the parent keeps its copy
